@@ -370,6 +370,11 @@ def case_angle(case):
             tc = a.unit_tangent_towards(H.Point(proj(kc, lc)))
             if (i + j) % 3 == 0:       # angle() must not depend on the lengths
                 tc = H.TangentVector(H.Point(np.asarray(tc.point).copy()), 2.5 * np.asarray(tc.vector))
+            # (p, v) and (-p, -v) are the same tangent vector: negate whole units independently
+            if (i + 2 * j) % 4 == 1:
+                tc = H.TangentVector(-np.asarray(tc.proj_data))
+            if (3 * i + j) % 4 == 2:
+                tb = H.TangentVector(-np.asarray(tb.proj_data))
             with warnings.catch_warnings():
                 warnings.simplefilter("ignore")
                 ang = tb.angle(tc)
